@@ -233,7 +233,7 @@ pub fn run_history(ops: &[&Op], cx: &mut CaseCtx) {
         optimised: false,
     };
     for d in &r.vars {
-        let (id, l) = new_var(&mut solver, d, None);
+        let (id, l) = new_var(&mut solver, d, None, &[]);
         ids.push(id);
         lits.push(l);
     }
@@ -248,7 +248,7 @@ pub fn run_history(ops: &[&Op], cx: &mut CaseCtx) {
                     continue;
                 }
                 let d = VarDecl::from_values(shape);
-                match guard(|| new_var(&mut solver, &d, None)) {
+                match guard(|| new_var(&mut solver, &d, None, &[])) {
                     Ok((id, l)) => {
                         ids.push(id);
                         lits.push(l);
@@ -267,7 +267,7 @@ pub fn run_history(ops: &[&Op], cx: &mut CaseCtx) {
                     continue;
                 }
                 let d = VarDecl::lit();
-                match guard(|| new_var(&mut solver, &d, None)) {
+                match guard(|| new_var(&mut solver, &d, None, &[])) {
                     Ok((id, l)) => {
                         ids.push(id);
                         lits.push(l);
